@@ -422,8 +422,10 @@ class C12(Prop):
                 stats.cls("case_variant_keys_cs_only")
             for cs in modes:
                 want = model.eq_set(a, b, bool(cs))
-                r1 = lib.cJSON_Compare(pa, pb, cs)
-                r2 = lib.cJSON_Compare(pb, pa, cs)
+                # cJSON_bool is an int: every non-zero value asks for the case-sensitive comparison
+                csv = cs and (1, 2, -1, 256)[case["rseed"] & 3]
+                r1 = lib.cJSON_Compare(pa, pb, csv)
+                r2 = lib.cJSON_Compare(pb, pa, csv)
                 stats.inner += 2
                 if bool(r1) != bool(r2):
                     raise Violation("Compare is not symmetric (case_sensitive=%d): %d vs %d; mutation %s" % (cs, r1, r2, kind), key="asymmetric")
